@@ -1,0 +1,405 @@
+//go:build verif
+
+// Add-only exports for the verification harness in /verif (property C08 and,
+// later, C07).  Compiled only with -tags verif; nothing here is reachable from
+// the normal build.
+
+package vm
+
+import (
+	"fmt"
+	"math/big"
+	"reflect"
+	"runtime"
+	"strings"
+	"unsafe"
+
+	"gitlab.com/aquachain/aquachain/common"
+	"gitlab.com/aquachain/aquachain/params"
+)
+
+// VerifOpInfo describes one entry of a [256]operation jump table.
+type VerifOpInfo struct {
+	Valid         bool
+	Pops, Pushes  int // recovered by probing validateStack
+	Halts         bool
+	Jumps         bool
+	Writes        bool
+	Reverts       bool
+	Returns       bool
+	Execute       string // function name (closures: factory name, e.g. "makePush")
+	ExecuteArg    int    // parameter of the factory recovered by probing, -1 if none
+	GasCost       string
+	GasArg        int64  // constGasFunc constant / makeGasLog n, -1 if none
+	MemorySize    string // "" when nil
+	ProbeProblems string // non-empty when a probe did not behave as expected
+}
+
+func verifFuncName(f interface{}) string {
+	v := reflect.ValueOf(f)
+	if v.IsNil() {
+		return ""
+	}
+	n := runtime.FuncForPC(v.Pointer()).Name()
+	if i := strings.LastIndex(n, "/"); i >= 0 {
+		n = n[i+1:]
+	}
+	// "vm.opAdd", "vm.makePush.func1", and for a factory inlined into its caller
+	// "vm.NewFrontierInstructionSet.constGasFunc.func1": keep the innermost
+	// named function (closures are identified by their factory)
+	parts := strings.Split(n, ".")
+	name := ""
+	for _, p := range parts[1:] {
+		if strings.HasPrefix(p, "func") || strings.HasPrefix(p, "gowrap") || (len(p) > 0 && p[0] >= '0' && p[0] <= '9') {
+			continue
+		}
+		name = p
+	}
+	n = name
+	return n
+}
+
+// VerifTableNames lists the instruction sets in the order NewInterpreter tests them (reversed).
+var VerifTableNames = []string{"frontier", "homestead", "byzantium", "constantinople", "spring"}
+
+func verifTable(name string) *[256]operation {
+	switch name {
+	case "frontier":
+		return &frontierInstructionSet
+	case "homestead":
+		return &homesteadInstructionSet
+	case "byzantium":
+		return &byzantiumInstructionSet
+	case "constantinople":
+		return &constantinopleInstructionSet
+	case "spring":
+		return &springInstructionSet
+	}
+	return nil
+}
+
+func verifStackOf(n int) *Stack {
+	st := newstack()
+	for i := 0; i < n; i++ {
+		st.push(new(big.Int))
+	}
+	return st
+}
+
+func verifProbeEnv(code []byte) (*EVM, *Contract) {
+	evm := &EVM{}
+	evm.interpreter = &Interpreter{evm: evm, intPool: newIntPool()}
+	evm.BlockNumber = new(big.Int)
+	c := &Contract{Code: code, jumpdests: make(destinations), value: new(big.Int)}
+	return evm, c
+}
+
+// VerifJumpTable returns the description of all 256 entries of the named table.
+func VerifJumpTable(name string) (out [256]VerifOpInfo, ok bool) {
+	tab := verifTable(name)
+	if tab == nil {
+		return out, false
+	}
+	for i := 0; i < 256; i++ {
+		op := tab[i]
+		info := VerifOpInfo{Valid: op.valid, Halts: op.halts, Jumps: op.jumps, Writes: op.writes,
+			Reverts: op.reverts, Returns: op.returns, ExecuteArg: -1, GasArg: -1}
+		if op.execute != nil {
+			info.Execute = verifFuncName(op.execute)
+		}
+		if op.gasCost != nil {
+			info.GasCost = verifFuncName(op.gasCost)
+		}
+		if op.memorySize != nil {
+			info.MemorySize = verifFuncName(op.memorySize)
+		}
+		if op.validateStack != nil {
+			// pops: smallest length accepted; pushes: from the largest length accepted
+			pops := -1
+			for n := 0; n <= 32; n++ {
+				if op.validateStack(verifStackOf(n)) == nil {
+					pops = n
+					break
+				}
+			}
+			info.Pops = pops
+			maxlen := -1
+			for n := int(params.StackLimit) + 40; n >= 0; n-- {
+				if op.validateStack(verifStackOf(n)) == nil {
+					maxlen = n
+					break
+				}
+			}
+			if pops < 0 || maxlen < 0 {
+				info.ProbeProblems += "validateStack never accepts;"
+			} else {
+				info.Pushes = int(params.StackLimit) + pops - maxlen
+			}
+		} else if op.valid {
+			info.ProbeProblems += "valid op without validateStack;"
+		}
+		func() {
+			defer func() {
+				if r := recover(); r != nil {
+					info.ProbeProblems += fmt.Sprintf("probe panic: %v;", r)
+				}
+			}()
+			switch info.GasCost {
+			case "constGasFunc":
+				g, err := op.gasCost(params.GasTable{}, nil, nil, nil, nil, 0)
+				if err != nil {
+					info.ProbeProblems += "constGasFunc error;"
+				}
+				info.GasArg = int64(g)
+			case "makeGasLog":
+				g, err := op.gasCost(params.GasTable{}, nil, nil, verifStackOf(4), NewMemory(), 0)
+				if err != nil || g < params.LogGas || (g-params.LogGas)%params.LogTopicGas != 0 {
+					info.ProbeProblems += "makeGasLog probe;"
+				} else {
+					info.GasArg = int64((g - params.LogGas) / params.LogTopicGas)
+				}
+			}
+			switch info.Execute {
+			case "makePush":
+				code := make([]byte, 40)
+				for j := range code {
+					code[j] = byte(j)
+				}
+				code[0] = byte(i)
+				evm, c := verifProbeEnv(code)
+				st := newstack()
+				pc := uint64(0)
+				op.execute(&pc, evm, c, NewMemory(), st)
+				n := len(st.peek().Bytes())
+				// pushed bytes must be code[1:1+n]
+				want := new(big.Int).SetBytes(code[1 : 1+n])
+				if st.len() != 1 || st.peek().Cmp(want) != 0 || int(pc) != n {
+					info.ProbeProblems += fmt.Sprintf("makePush probe: pc=%d bytes=%d;", pc, n)
+				}
+				info.ExecuteArg = n
+			case "makeDup", "makeSwap":
+				evm, c := verifProbeEnv(nil)
+				st := newstack()
+				for j := 20; j >= 1; j-- {
+					st.push(big.NewInt(int64(j))) // top = 1, n-th from the top = n
+				}
+				pc := uint64(0)
+				op.execute(&pc, evm, c, NewMemory(), st)
+				top := int(st.peek().Int64())
+				if info.Execute == "makeDup" {
+					info.ExecuteArg = top
+					if st.len() != 21 {
+						info.ProbeProblems += "makeDup probe;"
+					}
+				} else {
+					info.ExecuteArg = top - 1
+					if st.len() != 20 || int(st.Back(top-1).Int64()) != 1 {
+						info.ProbeProblems += "makeSwap probe;"
+					}
+				}
+			case "makeLog":
+				evm, c := verifProbeEnv(nil)
+				st := verifStackOf(10)
+				pc := uint64(0)
+				func() {
+					defer func() { recover() }() // nil StateDB: AddLog panics after the pops
+					op.execute(&pc, evm, c, NewMemory(), st)
+				}()
+				info.ExecuteArg = 10 - st.len() - 2
+			}
+		}()
+		out[i] = info
+	}
+	return out, true
+}
+
+func verifClosurePtr(f gasFunc) uintptr { return *(*uintptr)(unsafe.Pointer(&f)) }
+
+// VerifSelectedTable reports which of the five package-level instruction sets
+// NewInterpreter installs for (config, block number): the closure objects of
+// the tables are distinct allocations, so the identity of the gasCost closure
+// of ADD identifies the array that was copied.  "ambiguous"/"unknown" if not exactly one matches.
+func VerifSelectedTable(cfg *params.ChainConfig, num *big.Int) string {
+	evm := &EVM{chainConfig: cfg}
+	evm.BlockNumber = num
+	in := NewInterpreter(evm, Config{})
+	got := verifClosurePtr(in.cfg.JumpTable[ADD].gasCost)
+	res := ""
+	for _, n := range VerifTableNames {
+		if verifClosurePtr(verifTable(n)[ADD].gasCost) == got {
+			if res != "" {
+				return "ambiguous"
+			}
+			res = n
+		}
+	}
+	if res == "" {
+		return "unknown"
+	}
+	return res
+}
+
+// VerifSelectedGasTable returns the gas table NewInterpreter installs.
+func VerifSelectedGasTable(cfg *params.ChainConfig, num *big.Int) params.GasTable {
+	evm := &EVM{chainConfig: cfg}
+	evm.BlockNumber = num
+	return NewInterpreter(evm, Config{}).gasTable
+}
+
+// VerifCodeBitmap exposes codeBitmap.
+func VerifCodeBitmap(code []byte) []byte { return []byte(codeBitmap(code)) }
+
+// VerifHas exposes destinations.has on a fresh analysis cache.
+func VerifHas(code []byte, dest *big.Int) bool {
+	return make(destinations).has(common.Hash{}, code, dest)
+}
+
+// VerifToWordSize exposes toWordSize.
+func VerifToWordSize(n uint64) uint64 { return toWordSize(n) }
+
+// VerifMemoryGasCost exposes memoryGasCost on a memory of memLen bytes with the given lastGasCost.
+func VerifMemoryGasCost(memLen, lastGasCost, newMemSize uint64) (fee, newLast uint64, failed bool) {
+	m := &Memory{store: make([]byte, memLen), lastGasCost: lastGasCost}
+	fee, err := memoryGasCost(m, newMemSize)
+	return fee, m.lastGasCost, err != nil
+}
+
+// VerifCallGas exposes callGas.
+func VerifCallGas(gt params.GasTable, availableGas, base uint64, callCost *big.Int) (uint64, bool) {
+	g, err := callGas(gt, availableGas, base, callCost)
+	return g, err != nil
+}
+
+var verifGasFuncs = map[string]gasFunc{
+	"gasCallDataCopy": gasCallDataCopy, "gasReturnDataCopy": gasReturnDataCopy, "gasCodeCopy": gasCodeCopy,
+	"gasExtCodeCopy": gasExtCodeCopy, "gasSha3": gasSha3, "gasMLoad": gasMLoad, "gasMStore": gasMStore,
+	"gasMStore8": gasMStore8, "gasCreate": gasCreate, "gasReturn": gasReturn, "gasRevert": gasRevert,
+	"gasExp": gasExp, "gasLog0": makeGasLog(0), "gasLog1": makeGasLog(1), "gasLog2": makeGasLog(2),
+	"gasLog3": makeGasLog(3), "gasLog4": makeGasLog(4),
+}
+
+// VerifGas runs a state-independent gas function.  stack is given top first.
+// Returns (gas, new lastGasCost, error class: 0 none, 1 errGasUintOverflow, 2 other, 3 unknown name).
+func VerifGas(name string, gt params.GasTable, stackTopFirst []*big.Int, memLen, lastGasCost, memorySize uint64) (uint64, uint64, int) {
+	f, ok := verifGasFuncs[name]
+	if !ok {
+		return 0, 0, 3
+	}
+	st := newstack()
+	for i := len(stackTopFirst) - 1; i >= 0; i-- {
+		st.push(new(big.Int).Set(stackTopFirst[i]))
+	}
+	m := &Memory{store: make([]byte, memLen), lastGasCost: lastGasCost}
+	g, err := f(gt, nil, nil, st, m, memorySize)
+	switch err {
+	case nil:
+		return g, m.lastGasCost, 0
+	case errGasUintOverflow:
+		return 0, m.lastGasCost, 1
+	}
+	return 0, m.lastGasCost, 2
+}
+
+var verifMemFuncs = map[string]memorySizeFunc{
+	"memorySha3": memorySha3, "memoryCallDataCopy": memoryCallDataCopy, "memoryReturnDataCopy": memoryReturnDataCopy,
+	"memoryCodeCopy": memoryCodeCopy, "memoryExtCodeCopy": memoryExtCodeCopy, "memoryMLoad": memoryMLoad,
+	"memoryMStore8": memoryMStore8, "memoryMStore": memoryMStore, "memoryCreate": memoryCreate,
+	"memoryCall": memoryCall, "memoryDelegateCall": memoryDelegateCall, "memoryStaticCall": memoryStaticCall,
+	"memoryReturn": memoryReturn, "memoryRevert": memoryRevert, "memoryLog": memoryLog,
+}
+
+// VerifMemorySize runs a memorySize function (stack given top first); nil for an unknown name.
+func VerifMemorySize(name string, stackTopFirst []*big.Int) *big.Int {
+	f, ok := verifMemFuncs[name]
+	if !ok {
+		return nil
+	}
+	st := newstack()
+	for i := len(stackTopFirst) - 1; i >= 0; i-- {
+		st.push(new(big.Int).Set(stackTopFirst[i]))
+	}
+	return new(big.Int).Set(f(st))
+}
+
+// VerifExecPure executes the execute function bound to op in the named table on a
+// stack (given top first) with an empty memory and a probe environment (no
+// StateDB): only for instructions that touch nothing but the stack.  Returns the
+// resulting stack, top first.
+func VerifExecPure(table string, op byte, stackTopFirst []*big.Int) (res []*big.Int, err error) {
+	tab := verifTable(table)
+	if tab == nil || !tab[op].valid {
+		return nil, fmt.Errorf("invalid")
+	}
+	evm, c := verifProbeEnv([]byte{op})
+	st := newstack()
+	for i := len(stackTopFirst) - 1; i >= 0; i-- {
+		st.push(new(big.Int).Set(stackTopFirst[i]))
+	}
+	if e := tab[op].validateStack(st); e != nil {
+		return nil, e
+	}
+	pc := uint64(0)
+	defer func() {
+		if r := recover(); r != nil {
+			err = fmt.Errorf("panic: %v", r)
+		}
+	}()
+	if _, e := tab[op].execute(&pc, evm, c, NewMemory(), st); e != nil {
+		return nil, e
+	}
+	for i := st.len() - 1; i >= 0; i-- {
+		res = append(res, new(big.Int).Set(st.data[i]))
+	}
+	return res, nil
+}
+
+// VerifFrame is an explicit execution frame for VerifExecFrame (Stack is given top first).
+type VerifFrame struct {
+	Stack                   []*big.Int
+	Mem                     []byte
+	PC                      uint64
+	Code, Input, ReturnData []byte
+}
+
+// VerifExecFrame runs only the execute function bound to op in the named table
+// on the given frame (no stack validation, no gas, no memory resize, no pc++ of
+// Run): for the stack / memory / code / call-data instructions that need no
+// StateDB.  errs: "" | "returndata-oob" | "invalid-jump" | "err" | "panic".
+func VerifExecFrame(table string, op byte, f VerifFrame) (out VerifFrame, errs string) {
+	tab := verifTable(table)
+	if tab == nil || !tab[op].valid {
+		return out, "invalid"
+	}
+	evm, c := verifProbeEnv(f.Code)
+	c.Input = f.Input
+	evm.interpreter.returnData = f.ReturnData
+	st := newstack()
+	for i := len(f.Stack) - 1; i >= 0; i-- {
+		st.push(new(big.Int).Set(f.Stack[i]))
+	}
+	mem := &Memory{store: append(make([]byte, 0, len(f.Mem)), f.Mem...)}
+	pc := f.PC
+	func() {
+		defer func() {
+			if r := recover(); r != nil {
+				errs = "panic"
+			}
+		}()
+		_, err := tab[op].execute(&pc, evm, c, mem, st)
+		switch {
+		case err == nil:
+		case err == errReturnDataOutOfBounds:
+			errs = "returndata-oob"
+		case strings.HasPrefix(err.Error(), "invalid jump destination"):
+			errs = "invalid-jump"
+		default:
+			errs = "err"
+		}
+	}()
+	out.PC = pc
+	out.Mem = append([]byte{}, mem.store...)
+	for i := st.len() - 1; i >= 0; i-- {
+		out.Stack = append(out.Stack, new(big.Int).Set(st.data[i]))
+	}
+	return out, errs
+}
